@@ -2,6 +2,7 @@ package validator
 
 import (
 	"bytes"
+	"sort"
 	"strings"
 
 	jbytes "github.com/jsightapi/jsight-schema-go-library/bytes"
@@ -137,6 +138,10 @@ func (v objectValidator) requiredKeysString() string {
 	for k := range v.requiredKeys {
 		keys = append(keys, k)
 	}
+	// In the order of the schema: the order of a map changes from call to call.
+	sort.Slice(keys, func(i, j int) bool {
+		return v.requiredKeys[keys[i]] < v.requiredKeys[keys[j]]
+	})
 	return strings.Join(keys, ", ")
 }
 
